@@ -115,10 +115,13 @@ func genHubCase(rr *h.Rand, o *gen.Oracle, focus string) hubCase {
 			}
 			if rr.Chance(5, 6) {
 				id := fmt.Sprintf("id%d", pubN)
+				if len(ids) > 0 && rr.Chance(1, 5) {
+					id = h.Pick(rr, ids) // a publisher may reuse an id: same id, different update
+				}
 				form.Set("id", id)
 			}
 			pubN++
-			form.Set("data", h.Pick(rr, []string{"", "d", "l1\nl2", "é\r\nx", "data: y\n"}))
+			form.Set("data", h.Pick(rr, []string{"", "d", "l1\nl2", "é\r\nx", "data: y\n"})+fmt.Sprintf("#%d", pubN))
 			if rr.Chance(1, 4) {
 				form.Set("type", h.Pick(rr, []string{"t", "message"}))
 			}
@@ -390,10 +393,12 @@ func hubOracles(hr *hubRun, cs hubCase, o *gen.Oracle) []h.Violation {
 		sels, claim []string
 	}
 	subs := map[int]subInfo{}
-	pubs := map[string]struct {
+	type pubInfo struct {
 		topics  []string
 		private bool
-	}{}
+		data    string
+	}
+	pubs := map[string][]pubInfo{}
 	for _, op := range cs.Ops {
 		switch op.Op {
 		case "sub":
@@ -411,10 +416,7 @@ func hubOracles(hr *hubRun, cs hubCase, o *gen.Oracle) []h.Violation {
 					if reps > 1 {
 						k = fmt.Sprintf("%s-%d", id, i)
 					}
-					pubs[k] = struct {
-						topics  []string
-						private bool
-					}{op.Form["topic"], len(op.Form["private"]) != 0}
+					pubs[k] = append(pubs[k], pubInfo{op.Form["topic"], len(op.Form["private"]) != 0, normEOL(op.Form.Get("data"))})
 				}
 			}
 		}
@@ -451,8 +453,33 @@ func hubOracles(hr *hubRun, cs hubCase, o *gen.Oracle) []h.Violation {
 			seen[e.ID]++
 			var topics []string
 			private := false
-			if p, ok := pubs[e.ID]; ok {
-				topics, private = p.topics, p.private
+			if ps, ok := pubs[e.ID]; ok {
+				// several publishes may share an id: the event must be one of them, identified by its payload
+				found := false
+				for _, p := range ps {
+					if p.data == e.Data {
+						topics, private, found = p.topics, p.private, true
+					}
+				}
+				if !found {
+					add("C12:event-payload-is-not-the-published-one", fmt.Sprintf("connection %d received an event with id %q and data %q; the updates published under that id carry other payloads", lc.label, e.ID, e.Data))
+
+					continue
+				}
+				if len(ps) > 1 {
+					// the least permissive reading: if any publish with this id AND payload is allowed, fine
+					okAny := false
+					for _, p := range ps {
+						if p.data == e.Data && matchAny(p.topics, si.sels) && (!p.private || matchAny(p.topics, si.claim)) {
+							okAny = true
+						}
+					}
+					if !okAny {
+						add("C01:private-update-delivered-without-authorisation", fmt.Sprintf("connection %d (subscribe claim %q) received the payload %q of an update with id %q that it is not authorised for", lc.label, si.claim, e.Data, e.ID))
+					}
+
+					continue
+				}
 			} else if strings.HasPrefix(e.Data, "{") && strings.Contains(e.Data, `"type": "Subscription"`) {
 				var d struct {
 					ID string `json:"id"`
